@@ -156,6 +156,10 @@ func entryOf(fsys apkfs.FullFS, p string, fi fs.FileInfo) dentry {
 	return d
 }
 
+// oddNames is set when a dump meets a directory entry literally named ".",
+// ".." or containing "/" (outside the model's stated envelope).
+var oddNames bool
+
 func dumpFS(fsys apkfs.FullFS) []dentry {
 	var out []dentry
 	var rec func(dir string, depth int)
@@ -168,6 +172,9 @@ func dumpFS(fsys apkfs.FullFS) []dentry {
 			return
 		}
 		for _, de := range des {
+			if n := de.Name(); n == "." || n == ".." || n == "" || strings.Contains(n, "/") {
+				oddNames = true
+			}
 			p := de.Name()
 			if dir != "." {
 				p = dir + "/" + de.Name()
@@ -368,20 +375,7 @@ type accDesc struct {
 	Note    string    `json:"note,omitempty"`
 }
 
-func specHome(u cuser) string {
-	if u.Home == "" {
-		return "/home/" + u.Name
-	}
-	return u.Home
-}
-
-func accCase(w *gal.Writer, backend int, setup []setupOp, users []cuser, groups []cgroup, runAs, note string) {
-	fsys, kept := buildFS(backend, setup)
-	oldP, oldG := readText(fsys, "etc/passwd"), readText(fsys, "etc/group")
-	before := make([]sinfo, len(users))
-	for i, u := range users {
-		before[i] = statOf(fsys, specHome(u))
-	}
+func mkIC(users []cuser, groups []cgroup, runAs string) *types.ImageConfiguration {
 	ic := &types.ImageConfiguration{}
 	for _, u := range users {
 		tu := types.User{UserName: u.Name, UID: u.UID, Shell: u.Shell, HomeDir: u.Home}
@@ -395,6 +389,32 @@ func accCase(w *gal.Writer, backend int, setup []setupOp, users []cuser, groups 
 		ic.Accounts.Groups = append(ic.Accounts.Groups, types.Group{GroupName: g.Name, GID: g.GID, Members: g.Members})
 	}
 	ic.Accounts.RunAs = runAs
+	return ic
+}
+
+func specHome(u cuser) string {
+	if u.Home == "" {
+		return "/home/" + u.Name
+	}
+	return u.Home
+}
+
+func accCase(w *gal.Writer, backend int, setup []setupOp, users []cuser, groups []cgroup, runAs, note string) {
+	fsys, kept := buildFS(backend, setup)
+	oldP, oldG := readText(fsys, "etc/passwd"), readText(fsys, "etc/group")
+	// Stat(home) at the time user k is processed: run the real code with the
+	// earlier users only, on a fresh copy of the tree
+	before := make([]sinfo, len(users))
+	for i, u := range users {
+		pre, _ := buildFS(backend, kept)
+		pic := mkIC(users[:i], nil, "")
+		func() {
+			defer func() { _ = recover() }()
+			_ = build.VerifMutateAccounts(pre, pic)
+		}()
+		before[i] = statOf(pre, specHome(u))
+	}
+	ic := mkIC(users, groups, runAs)
 	var err error
 	func() {
 		defer func() {
